@@ -361,6 +361,26 @@ func (e *Exec) evalUnary(st *State, x *ast.UnaryExpr) Term {
 
 // addressOf evaluates &x.
 func (e *Exec) addressOf(st *State, x ast.Expr) Term {
+	// &pkgVar (also implicit, for pointer-receiver methods of package-level variables): one constant address per variable
+	var gid *ast.Ident
+	switch y := x.(type) {
+	case *ast.Ident:
+		gid = y
+	case *ast.SelectorExpr:
+		if _, isField := e.info.Selections[y]; !isField {
+			gid = y.Sel
+		}
+	}
+	if gid != nil {
+		if o, ok := e.info.ObjectOf(gid).(*types.Var); ok && o.Pkg() != nil && o.Parent() == o.Pkg().Scope() {
+			name := "gaddr_" + sanitize(o.Pkg().Name()+"_"+o.Name())
+			if !e.declared["fun:"+name] {
+				e.rawDecl("fun:"+name, "(declare-fun "+name+" () Int)")
+				e.globalAxiom("(assert (> " + name + " 0))")
+			}
+			return Term{name, SInt}
+		}
+	}
 	switch y := x.(type) {
 	case *ast.ParenExpr:
 		return e.addressOf(st, y.X)
